@@ -86,17 +86,19 @@ Definition cnt (p : pool) (vtx : list ctx) : N := len (flat_map (outs_of p) vtx)
 (** [height()]: [self.height.try_into().unwrap()] — panics above u32. *)
 Definition block_height (b : cblock) : res N :=
   if b_height b <? U32 then Ok (b_height b) else Panic.
-(** [hash()] / [prev_hash()]: the parsed header if there is one, else [BlockHash::from_slice],
-    which panics unless the field has exactly 32 bytes. *)
+(** [hash()]: the parsed header's hash if there is one, else [BlockHash::from_slice], which
+    panics unless the field has exactly 32 bytes. The previous-block hash is compared as a raw
+    field by [check_hash_continuity] (no panic). *)
 Definition block_hash (b : cblock) : res N :=
   match b_hdr b with
   | Some h => Ok (fst h)
   | None => if flen (b_hash b) =? 32 then Ok (fid (b_hash b)) else Panic
   end.
-Definition block_prev (b : cblock) : res N :=
+(** does the block's previous-hash (header's, else the raw field) equal [x]? *)
+Definition prev_matches (b : cblock) (x : N) : bool :=
   match b_hdr b with
-  | Some h => Ok (snd h)
-  | None => if flen (b_prev b) =? 32 then Ok (fid (b_prev b)) else Panic
+  | Some h => snd h =? x
+  | None => (flen (b_prev b) =? 32) && (fid (b_prev b) =? x)
   end.
 (** [CompactTx::txid()]: [copy_from_slice] — panics unless 32 bytes. *)
 Definition txid_of (t : ctx) : res N :=
@@ -112,9 +114,7 @@ Definition check_continuity (b : cblock) (prior : option pmeta) : res unit :=
   | Some pm =>
       h <- block_height b ;;
       if negb (h =? sat_succ (p_height pm)) then Err (BlockHeightDiscontinuity (p_height pm) h)
-      else
-        ph <- block_prev b ;;
-        if negb (ph =? p_hash pm) then Err (PrevHashMismatch h) else Ok tt
+      else if negb (prev_matches b (p_hash pm)) then Err (PrevHashMismatch h) else Ok tt
   end.
 
 (** ---- PositionTracker::for_compact_block / tree_sizes_around ----------------------------- *)
